@@ -201,7 +201,8 @@ func (p *IGMPv3Query) UnmarshalBinary(data []byte) error {
 	n += 1
 	p.NumberOfSources = binary.BigEndian.Uint16(data[n:])
 	n += 2
-	if len(data) < int(p.Len()) {
+	// Len() is a uint16 and wraps for 16384 sources or more
+	if len(data) < 12+4*int(p.NumberOfSources) {
 		return fmt.Errorf("The []byte is too short to unmarshal a full IGMPv3Query message.")
 	}
 	for j := 0; j < int(p.NumberOfSources); j++ {
@@ -300,7 +301,8 @@ func (p *IGMPv3GroupRecord) UnmarshalBinary(data []byte) error {
 	p.MulticastAddress = make([]byte, 4)
 	copy(p.MulticastAddress, data[n:n+4])
 	n += 4
-	if len(data) < int(p.Len()) {
+	// Len() is a uint16 and wraps for large counts
+	if len(data) < 8+4*int(p.NumberOfSources)+4*int(p.AuxDataLen) {
 		return fmt.Errorf("The []byte is too short to unmarshal a full IGMPv3GroupRecord message.")
 	}
 	for i := uint16(0); i < p.NumberOfSources; i++ {
@@ -416,7 +418,7 @@ func (p *IGMPv3MembershipReport) UnmarshalBinary(data []byte) error {
 			return err
 		}
 		p.GroupRecords = append(p.GroupRecords, *gr)
-		n += int(gr.Len())
+		n += 8 + 4*int(gr.NumberOfSources) + 4*int(gr.AuxDataLen)
 	}
 	return nil
 }
